@@ -302,3 +302,54 @@ Print Assumptions svo_partial_cmp_order_independent.
 Print Assumptions svo_merge_is_join.
 Print Assumptions svo_merge_laws.
 Print Assumptions svo_merge_never_decreases.
+(* the second loop without its arm `Ordering::Greater if result == Some(Ordering::Less) => return None` *)
+Definition svo_step_no_gt_arm (res : svo_ord) (x y : N) : option svo_ord :=
+  match x ?= y with
+  | Lt => match res with SvGreater => None | _ => Some SvLess end
+  | Gt => Some SvGreater
+  | Eq => Some res
+  end.
+Fixpoint svo_loop_no_gt_arm (res : svo_ord) (ps : list (N * N)) : option svo_ord :=
+  match ps with
+  | [] => Some res
+  | (x, y) :: r => match svo_step_no_gt_arm res x y with None => None | Some res' => svo_loop_no_gt_arm res' r end
+  end.
+Definition svo_partial_cmp_no_gt_arm (a b : list (N * N)) : option svo_ord :=
+  match svo_loop SvEqual (svo_pairs1 a b) with
+  | None => None
+  | Some r => svo_loop_no_gt_arm r (svo_pairs2 a b)
+  end.
+
+Lemma svo_loop_no_gt_arm_same : forall ps r,
+  r = SvGreater \/ existsb (fun p => snd p <? fst p) ps = false ->
+  svo_loop_no_gt_arm r ps = svo_loop r ps.
+Proof.
+  induction ps as [|[x y] ps IH]; intros r H; [reflexivity|].
+  cbn [svo_loop_no_gt_arm svo_loop]. unfold svo_step_no_gt_arm, svo_step.
+  cbn [existsb fst snd] in H.
+  destruct (N.compare_spec x y) as [E|L|G].
+  - apply IH. destruct H as [H|H]; [left; exact H|right]. apply orb_false_iff in H. apply H.
+  - destruct r; try reflexivity; apply IH; destruct H as [H|H]; try discriminate; right; apply orb_false_iff in H; apply H.
+  - assert (Hyx : (y <? x) = true) by (apply N.ltb_lt; exact G).
+    destruct H as [H|H]; [subst r; apply IH; left; reflexivity|]. rewrite Hyx in H. discriminate.
+Qed.
+
+(* that arm of the second loop is unreachable: a client with a larger clock in `self` was met in the first loop *)
+Theorem svo_second_loop_greater_arm_is_dead : forall a b, svo_wf a = true -> svo_wf b = true ->
+  svo_partial_cmp_no_gt_arm a b = svo_partial_cmp a b.
+Proof.
+  intros a b Ha Hb. unfold svo_partial_cmp_no_gt_arm, svo_partial_cmp.
+  destruct (svo_loop SvEqual (svo_pairs1 a b)) as [r|] eqn:E1; [|reflexivity].
+  apply svo_loop_no_gt_arm_same.
+  destruct (existsb (fun p => snd p <? fst p) (svo_pairs2 a b)) eqn:E2; [left|right; reflexivity].
+  (* a Gt pair of the second loop is a Gt pair of the first *)
+  assert (G1 : existsb (fun p => snd p <? fst p) (svo_pairs1 a b) = true).
+  { apply existsb_exists in E2. destruct E2 as [[x y] [Hin Hlt]]. cbn [fst snd] in Hlt.
+    apply in_map_iff in Hin. destruct Hin as [[c k] [Heq Hin]]. cbn [fst snd] in Heq. injection Heq as Hx Hy. subst x y.
+    apply N.ltb_lt in Hlt. apply existsb_exists. exists (svo_get a c, svo_get b c). split.
+    - apply in_map_iff. exists (c, svo_get a c). split; [reflexivity|]. apply svo_get_nonzero_in. lia.
+    - cbn [fst snd]. rewrite (svo_get_in b c k Hb Hin). apply N.ltb_lt. exact Hlt. }
+  rewrite svo_loop_verdict in E1. cbn [svo_is_less svo_is_greater orb] in E1. rewrite G1 in E1.
+  unfold svo_verdict in E1. destruct (existsb (fun p => fst p <? snd p) (svo_pairs1 a b)); cbn [andb] in E1; congruence.
+Qed.
+Print Assumptions svo_second_loop_greater_arm_is_dead.
